@@ -71,9 +71,13 @@ def run(R):
     R.rule("C13-R3", "document coverage: what the parallel workers of a chunked loader iterate over is a total partition of the "
                      "document's lines - it reaches the worker from the document text only through element-preserving steps "
                      "(lines, collect, chunks/par_chunks, iterators, copies); no hand-computed sub-range and no truncating adaptor")
+    R.rule("C13-R4", "memoised term resolution depends on nothing but its key: where a loader caches the expansion of a token (map lookup, "
+                     "else compute and insert), every piece of loader state the computation reads (the prefix table) is either part of "
+                     "the key or never written while the cache lives - or the cache is cleared where that state changes")
     r1(R)
     r2(R)
     r3(R)
+    r4(R)
 
 
 def shared_dictionary(b, fam, prog, root_a, root_b):
@@ -356,3 +360,81 @@ def r3(R):
                  "ranges (e.g. a division remainder) are never parsed"
                  % "; ".join(sorted({"%s%s" % (t[1], (" (line %s)" % t[2]) if t[2] else "") for t in other})))
     R.floor("C13-R3", "parallel worker pipelines", n, 2)
+
+
+# ---------------------------------------------------------------- R4 memo keys
+
+def r4(R):
+    from lib import pipeline as P
+    prog = R.prog
+    nload = 0
+    nmemo = 0
+    for b in sorted(prog.bodies.values(), key=lambda x: x.key):
+        if b.self_adt != SD or b.is_closure or not b.name.startswith("parse_") or is_test(b):
+            continue
+        nload += 1
+        fam = prog.family(b.key)
+        # state written by the loader while it runs: fields of self / the database that receive insert/extend/clear
+        written = {}
+        for x in fam:
+            for c in x.calls():
+                if c.name() in ("insert", "extend", "remove", "clear", "entry", "push") and c.args:
+                    o = x.origin(c.args[0], stop_named=False)
+                    if o[0] == "place":
+                        for e in o[1]["p"]:
+                            if e["k"] == "field" and e.get("adt") == SD:
+                                written.setdefault(e["n"], []).append((x, c))
+        for x in fam:
+            ins = [c for c in x.calls() if c.name() == "insert" and len(c.args) == 3 and "HashMap" in (c.pretty or "")]
+            for c in ins:
+                m = _map_identity(x, c.args[0])
+                if m is None or m[0] != "local":
+                    continue            # a field of the database is not a scratch cache
+                gets = [g for g in x.calls() if g.name() in ("get", "contains_key") and g.args and _map_identity(x, g.args[0]) == m]
+                if not gets:
+                    continue
+                # memo shape: a hit returns / yields the stored value
+                nmemo += 1
+                R.saw(b)
+                vl = F.op_place(c.args[2])
+                der = P.derives(prog, x, vl["l"]) if vl is not None else set()
+                reads = set()
+                for t in der:
+                    if t[0] == "field":
+                        reads.add(t[1].split(".")[-1])
+                # captured database fields read by the computation inside closures
+                for bb, i, pl, rv, st in x.assigns():
+                    for p2, k2 in F.rv_places(rv):
+                        for e in p2["p"]:
+                            if e["k"] == "field" and e.get("adt") == SD:
+                                reads.add(e["n"])
+                stale = sorted(f for f in reads if f in written and f not in ("dictionary", "dataset_index", "quoted_triple_store"))
+                cleared = any(cc.name() == "clear" and cc.args and _map_identity(y, cc.args[0]) is not None and
+                              (_map_identity(y, cc.args[0]) == m or _map_identity(y, cc.args[0])[1:] == m[1:]) for y in fam for cc in y.calls())
+                ok = not stale or cleared
+                R.ob("C13-R4", "memo:%s:%s" % (b.name, m[2] if len(m) > 2 else m[1]), "the term cache `%s` in %s is keyed on everything its values depend on "
+                     "(loader state read by the computation and written during the load: %s)" % (m[2] if len(m) > 2 else m[1], b.name, stale), ok,
+                     where=x.where(c.ln), detail=None if ok else "the cached expansion was computed under an earlier binding of %s; after the document rebinds "
+                     "it (two @prefix lines for one label, e.g. concatenated files) later statements reuse the stale value" % stale)
+    R.ob("C13-R4", "loaders", "loader bodies scanned for scratch caches (%d loaders, %d caches)" % (nload, nmemo), nload >= 5)
+
+
+def _map_identity(x, op):
+    """('local', body key, name) for a map held in a named local (possibly captured by a closure), ('field', ...) for a struct field"""
+    o = x.origin(op, stop_named=True)
+    if o[0] != "place":
+        return None
+    pl = o[1]
+    if x.is_closure and pl["l"] == 1:
+        for e in pl["p"]:
+            if e["k"] == "field":
+                for idx, nm in x.r.get("upvars", []):
+                    if idx == e["i"]:
+                        return ("local", "capture", nm)
+                return None
+    if any(e["k"] == "field" and e.get("adt") for e in pl["p"]):
+        return ("field", tuple(e["n"] for e in pl["p"] if e["k"] == "field"))
+    nm = x.local_name(pl["l"])
+    if nm is None:
+        return None
+    return ("local", "capture", nm)
